@@ -285,9 +285,15 @@ def save_restore(res, g):
         visit(n)
     clean = {}
     summary = {}
+    resolved_structs = {}
     for name in order:
         # statement-level static helpers are expanded so that extracting a save / restore into a helper changes nothing
         fn, _ = r_misc.inline_helpers(u, u.funcs[name])
+        # a saved buffer / spec carried in a local struct (`restore.fullstate`, `(&restore)->spec`) is the variable the
+        # struct member was defined with
+        fn, through = r_misc.resolve_local_structs(u, fn)
+        if through:
+            resolved_structs[name] = through
         defs = r_misc.local_defs(fn)
         call_dirty = {}
         for c in sorted({cir.callee(x) for x in cir.calls(fn) if cir.callee(x)}):
@@ -315,6 +321,8 @@ def save_restore(res, g):
             else:
                 res.ok("R-SAVE-RESTORE", f"{name}:{f}", None)
     res.extra["fd_routines"] = summary
+    if resolved_structs:
+        res.extra["values_resolved_through_local_structs"] = resolved_structs
     res.count("fd_routines", len(order))
 
 
@@ -537,7 +545,44 @@ def run(res, tier):
                        "compiler couplings: " + "; ".join(f"{a} <=> {b[0]}" for a, b in COUPLED.items())]
 
 
+# the step / record / restore sequence wrapped in a static helper that receives the saved buffer and its spec in a struct
+_ANCHOR_ENTRY = "//------------------------- main entry points"
+_HELPER = ("typedef struct {\n  const mjtNum* fullstate;\n  unsigned int spec;\n  int skipsensor;\n} FDRestore;\n\n"
+           "static void stepNudged(const mjModel* m, mjData* d, const FDRestore* restore, mjtStage skipstage,\n"
+           "                       mjtNum* next, mjtNum* sensor) {\n"
+           "  mj_stepSkip(m, d, skipstage, restore->skipsensor);\n  getState(m, d, next, sensor);\n"
+           "  mj_setState(m, d, restore->fullstate, restore->spec);\n}\n\n")
+_SEQ_PLUS = ("        mj_stepSkip(m, d, mjSTAGE_VEL, skipsensor);\n        getState(m, d, next_plus, sensor_plus);\n\n"
+             "        // reset\n        mj_setState(m, d, fullstate, restore_spec);\n")
+_SEQ_MINUS = ("        mj_stepSkip(m, d, mjSTAGE_VEL, skipsensor);\n        getState(m, d, next_minus, sensor_minus);\n\n"
+              "        // reset\n        mj_setState(m, d, fullstate, restore_spec);\n")
+_SAVED = "  getState(m, d, state, NULL);\n"
+
+
+def _struct_helper_edits(decl, by_value=False):
+    helper = _HELPER if not by_value else _HELPER.replace("const FDRestore* restore", "FDRestore restore").replace("restore->", "restore.")
+    arg = "restore" if by_value else "&restore"
+    return [(FD, _ANCHOR_ENTRY, helper + _ANCHOR_ENTRY), (FD, _SAVED, _SAVED + decl),
+            (FD, _SEQ_PLUS, f"        stepNudged(m, d, {arg}, mjSTAGE_VEL, next_plus, sensor_plus);\n"),
+            (FD, _SEQ_MINUS, f"        stepNudged(m, d, {arg}, mjSTAGE_VEL, next_minus, sensor_minus);\n", 2)]
+
+
 MUTANTS = [
+    {"id": "struct-helper-other-spec", "expect": ("R-SAVE-RESTORE", "mjd_stepFD"),
+     "edits": _struct_helper_edits("  const FDRestore restore = {fullstate, mjSTATE_FULLPHYSICS, skipsensor};\n")},
+    {"id": "struct-helper-spec-widened-after", "expect": ("R-SAVE-RESTORE", "mjd_stepFD"),
+     "edits": [(FD, "  mj_getState(m, d, fullstate, restore_spec);\n  mju_copy(ctrl, d->ctrl, nu);",
+                "  const FDRestore restore = {fullstate, restore_spec, skipsensor};\n  restore_spec |= mjSTATE_USERDATA;\n"
+                "  mj_getState(m, d, fullstate, restore_spec);\n  mju_copy(ctrl, d->ctrl, nu);")] +
+     [e for e in _struct_helper_edits("") if e[1] != _SAVED]},
+    {"id": "struct-helper-field-overwritten", "expect": ("R-SAVE-RESTORE", "mjd_stepFD"),
+     "edits": _struct_helper_edits("  FDRestore restore;\n  restore.fullstate = fullstate;\n  restore.spec = restore_spec;\n"
+                                   "  restore.skipsensor = skipsensor;\n  if (flg_centered) restore.spec = mjSTATE_QPOS;\n")},
+    {"id": "ctl-struct-helper", "expect": None,
+     "edits": _struct_helper_edits("  const FDRestore restore = {fullstate, restore_spec, skipsensor};\n")},
+    {"id": "ctl-struct-helper-fieldwise-by-value", "expect": None,
+     "edits": _struct_helper_edits("  FDRestore restore;\n  restore.fullstate = fullstate;\n  restore.spec = restore_spec;\n"
+                                   "  restore.skipsensor = skipsensor;\n", by_value=True)},
     {"id": "drop-restore-ctrl", "expect": ("R-SAVE-RESTORE", "mjd_stepFD:"),
      "edits": [(FD, "        getState(m, d, next_minus, sensor_minus);\n\n        // reset\n        mj_setState(m, d, fullstate, restore_spec);\n      }\n\n      // difference states\n      if (DyDu) {",
                 "        getState(m, d, next_minus, sensor_minus);\n      }\n\n      // difference states\n      if (DyDu) {")]},
